@@ -185,6 +185,14 @@ def _abstract_run(fn, name, val, roles, functions=None, _depth=0):
                     return val["mode_eq"]
         if isinstance(e, ast.UnaryOp) and isinstance(e.op, ast.Not):
             return not eval_bool(e.operand)
+        if isinstance(e, ast.BoolOp):
+            vals_ = (eval_bool(x) for x in e.values)
+            return all(vals_) if isinstance(e.op, ast.And) else any(vals_)
+        if isinstance(e, ast.Name) and len(_ld.get(e.id, [])) == 1 \
+                and isinstance(_ld[e.id][0], (ast.BoolOp, ast.Compare,
+                                              ast.UnaryOp)):
+            # a flag local naming a compound condition
+            return eval_bool(_ld[e.id][0])
         if isinstance(e, ast.Call) and isinstance(e.func, ast.Name) \
                 and functions and e.func.id in functions and _depth < 2:
             # a private predicate of the module: run it under the same
